@@ -46,6 +46,11 @@ func runC05(c *Ctx) {
 	c05LimitOffset(c, "C05.6")
 	c05KeywordLookup(c, "C05.7")
 	c05FreshRows(c, "C05.8")
+	c.Rule("C05.9", "values compared by WHERE are the values stored: the row codec is symmetric per column type (C08.4)")
+	checkCodecPair(c, "C05.9", "storage.(*Tuple).Encode", "storage.(*Tuple).Decode")
+	c11SplitArithmetic(c, "C05.10")
+	c11SiblingLinks(c, "C05.10l")
+	ruleStripQuotes(c, "C05.11")
 }
 
 // ---- C05.1 ---------------------------------------------------------------------
@@ -859,6 +864,8 @@ func runC06(c *Ctx) {
 	c06Ambiguity(c, "C06.3")
 	c05FreshRows(c, "C06.4")
 	c05BoolOps(c, "C06.5")
+	ruleJoinNoEarlyReturn(c, "C06.6")
+	ruleLookupKeys(c, "C06.7")
 }
 
 func c06JoinMapping(c *Ctx, rule string) {
@@ -1239,6 +1246,10 @@ func runC07(c *Ctx) {
 	c07Rounding(c, "C07.2")
 	c07GroupKey(c, "C07.3")
 	c07Seeds(c, "C07.4")
+	ruleAvgRounding(c, "C07.5")
+	ruleLookupKeys(c, "C07.6")
+	c05FreshRows(c, "C07.7")
+	c08FreshDecodeTarget(c, "C07.8")
 }
 
 func c07Rounding(c *Ctx, rule string) {
